@@ -1618,20 +1618,30 @@ let sb_new sbc =
 
 let sb_get_rank s symbol block_id =
   bind (uidx s symbol) (fun data ->
-    let sb = N.shiftr data sB_SHIFT_GR in
-    let not_first = if N.ltb N0 block_id then Npos XH else N0 in
-    let b =
-      N.mul
-        (N.coq_land
-          (N.shiftr data (N.mul (N.sub block_id not_first) bLK_BITS_GR))
-          bLK_MASK_GR) not_first
+    let sb =
+      N.modulo (N.shiftr data sB_SHIFT_GR)
+        (N.pow (Npos (XO XH)) (Npos (XO (XO (XO (XO (XO (XO XH))))))))
     in
-    Val (N.add sb b))
+    let not_first = if N.ltb N0 block_id then Npos XH else N0 in
+    bind (osub block_id not_first) (fun k ->
+      bind (omul (Npos (XO (XO (XO (XO (XO (XO XH))))))) k bLK_BITS_GR)
+        (fun sh ->
+        bind (oshr (Npos (XO (XO (XO (XO (XO (XO (XO XH)))))))) data sh)
+          (fun d ->
+          bind
+            (omul (Npos (XO (XO (XO (XO (XO (XO XH)))))))
+              (N.coq_land
+                (N.modulo d
+                  (N.pow (Npos (XO XH)) (Npos (XO (XO (XO (XO (XO (XO
+                    XH))))))))) bLK_MASK_GR) not_first) (fun b ->
+            oadd (Npos (XO (XO (XO (XO (XO (XO XH))))))) sb b)))))
 
 (** val sb_get_superblock_counter : n list -> n -> n outcome **)
 
 let sb_get_superblock_counter s symbol =
-  bind (uidx s symbol) (fun data -> Val (N.shiftr data sB_SHIFT_GC))
+  bind (uidx s symbol) (fun data -> Val
+    (N.modulo (N.shiftr data sB_SHIFT_GC)
+      (N.pow (Npos (XO XH)) (Npos (XO (XO (XO (XO (XO (XO XH))))))))))
 
 (** val sb_set_block_counters : n list -> n -> n list -> n list outcome **)
 
@@ -3960,12 +3970,16 @@ let rsn_new bv =
 (** val rsn_block_rank : rsnarrow -> n -> n outcome **)
 
 let rsn_block_rank r block =
-  idx r.rsn_pairs (N.mul block (Npos (XO XH)))
+  bind (omul (Npos (XO (XO (XO (XO (XO (XO XH))))))) block (Npos (XO XH)))
+    (fun k -> idx r.rsn_pairs k)
 
 (** val rsn_sub_block_ranks : rsnarrow -> n -> n outcome **)
 
 let rsn_sub_block_ranks r block =
-  idx r.rsn_pairs (N.add (N.mul block (Npos (XO XH))) (Npos XH))
+  bind (omul (Npos (XO (XO (XO (XO (XO (XO XH))))))) block (Npos (XO XH)))
+    (fun k ->
+    bind (oadd (Npos (XO (XO (XO (XO (XO (XO XH))))))) k (Npos XH))
+      (fun k0 -> idx r.rsn_pairs k0))
 
 (** val rsn_sub_block_rank : rsnarrow -> n -> n outcome **)
 
@@ -3977,8 +3991,9 @@ let rsn_sub_block_rank r sub_block =
       bind (osub (Npos (XI (XI XH))) left) (fun d ->
         bind
           (oshr (Npos (XO (XO (XO (XO (XO (XO XH))))))) sr
-            (N.mul d rSN_SBR_BITS)) (fun sh -> Val
-          (N.add br (N.coq_land sh rSN_SBR_MASK))))))
+            (N.mul d rSN_SBR_BITS)) (fun sh ->
+          oadd (Npos (XO (XO (XO (XO (XO (XO XH))))))) br
+            (N.coq_land sh rSN_SBR_MASK)))))
 
 (** val rsn_rank1_unchecked : rsnarrow -> n -> n outcome **)
 
